@@ -124,8 +124,63 @@ pub mod vfs {
                     r is Ok ==> final(buf)@ == old(buf)@ + old(w).fs.files[old(self).path@]
         { unimplemented!() }
     }
+    impl File {
+        // flush / sync_all: what has been written is in the file already in this model
+        #[verifier::external_body]
+        pub fn flush(&mut self, Tracked(w): Tracked<&mut World>) -> (r: Result<(), IoError>)
+            ensures *final(w) == *old(w), *final(self) == *old(self) { unimplemented!() }
+        #[verifier::external_body]
+        pub fn sync_all(&self, Tracked(w): Tracked<&mut World>) -> (r: Result<(), IoError>)
+            ensures *final(w) == *old(w) { unimplemented!() }
+    }
+    // ---- the free functions of tokio::fs / std::fs (whole-file operations)
+    pub struct Metadata { pub size: u64, pub file: bool }
+    impl Metadata {
+        pub fn len(&self) -> (r: u64) ensures r == self.size { self.size }
+        pub fn is_file(&self) -> (r: bool) ensures r == self.file { self.file }
+        pub fn is_dir(&self) -> (r: bool) ensures r == !self.file { !self.file }
+    }
+    #[verifier::external_body]
+    pub fn metadata(p: &PathBuf, Tracked(w): Tracked<&mut World>) -> (r: Result<Metadata, IoError>)
+        ensures *final(w) == *old(w),
+            r matches Ok(m) ==> (m.file <==> old(w).fs.files.contains_key(p@)) && (m.file ==> m.size as nat == old(w).fs.files[p@].len()),
+    { unimplemented!() }
+    #[verifier::external_body]
+    pub fn try_exists(p: &PathBuf, Tracked(w): Tracked<&mut World>) -> (r: Result<bool, IoError>)
+        ensures *final(w) == *old(w) { unimplemented!() }
+    #[verifier::external_body]
+    pub fn read(p: &PathBuf, Tracked(w): Tracked<&mut World>) -> (r: Result<Vec<u8>, IoError>)
+        ensures *final(w) == *old(w), r matches Ok(v) ==> old(w).fs.files.contains_key(p@) && v@ == old(w).fs.files[p@] { unimplemented!() }
+    // fs::write: create or truncate (mode 0o666 for a new file), then write everything
+    #[verifier::external_body]
+    pub fn write(p: &PathBuf, data: &[u8], Tracked(w): Tracked<&mut World>) -> (r: Result<(), IoError>)
+        ensures final(w).clock == old(w).clock, final(w).admissions == old(w).admissions, final(w).net == old(w).net,
+            forall|q: Seq<char>| q != p@ ==> final(w).fs.files.contains_key(q) == old(w).fs.files.contains_key(q) && final(w).fs.files[q] == old(w).fs.files[q],
+            r is Ok ==> final(w).fs.files == old(w).fs.files.insert(p@, data@)
+                && final(w).fs.modes == (if old(w).fs.files.contains_key(p@) { old(w).fs.modes } else { old(w).fs.modes.insert(p@, 0o666u32) })
+                && final(w).fs.events == old(w).fs.events.push(FsEvent::Open { path: p@, mode: 0o666u32, created: !old(w).fs.files.contains_key(p@), truncated: true }).push(FsEvent::Write { path: p@ }),
+    { unimplemented!() }
+    // fs::rename: the target is replaced by the source, which keeps its own mode and owner
+    #[verifier::external_body]
+    pub fn rename(from: &PathBuf, to: &PathBuf, Tracked(w): Tracked<&mut World>) -> (r: Result<(), IoError>)
+        ensures final(w).clock == old(w).clock, final(w).admissions == old(w).admissions, final(w).net == old(w).net,
+            r is Err ==> final(w).fs == old(w).fs,
+            r is Ok ==> old(w).fs.files.contains_key(from@)
+                && final(w).fs.files == old(w).fs.files.remove(from@).insert(to@, old(w).fs.files[from@])
+                && final(w).fs.modes == old(w).fs.modes.remove(from@).insert(to@, old(w).fs.modes[from@])
+                && final(w).fs.events == old(w).fs.events.push(FsEvent::Rename { from: from@, to: to@ }),
+    { unimplemented!() }
+    #[verifier::external_body]
+    pub fn remove_file(p: &PathBuf, Tracked(w): Tracked<&mut World>) -> (r: Result<(), IoError>)
+        ensures final(w).clock == old(w).clock, final(w).admissions == old(w).admissions, final(w).net == old(w).net,
+            r is Err ==> final(w).fs == old(w).fs,
+            r is Ok ==> final(w).fs.files == old(w).fs.files.remove(p@) && final(w).fs.modes == old(w).fs.modes.remove(p@)
+                && final(w).fs.events == old(w).fs.events.push(FsEvent::Remove { path: p@ }),
+    { unimplemented!() }
     }
 }
+// fully qualified paths of the external crate resolve to the model
+pub mod tokio { pub mod fs { pub use crate::vfs::{File, OpenOptions, Metadata, metadata, try_exists, read, write, rename, remove_file}; } }
 pub mod nix { pub mod unistd {
     use vstd::prelude::*;
     use crate::*;
